@@ -116,7 +116,8 @@ class ParticleReleaser(Iterator[pd.DataFrame]):
         if warm_start_file:
             # Get particle data from  warm start file
             with Dataset(warm_start_file) as f:
-                warm_particle_count = np.max(f.variables["pid"][:]) + 1
+                pids = np.asarray(f.variables["pid"][:])
+                warm_particle_count = int(pids.max()) + 1 if pids.size else 0
             logger.info("  warm_particle_count: %d", warm_particle_count)
         #         for name in config["particle_variables"]:
         #             pvars[name] = f.variables[name][:warm_particle_count]
